@@ -826,7 +826,8 @@ Inductive fedit :=
 | ESetType (i : Z) (t : str)               (* fts[i].type = t *)
 | ESetLocs (i : Z) (ls : list rawloc)      (* fts[i].locs = [Location(...), ...] *)
 | ESwap (i j : Z)                          (* fts[i], fts[j] = fts[j], fts[i] *)
-| EClear.                                  (* fts.clear() *)
+| EClear                                   (* fts.clear() *)
+| EAddFts (fs : list rawft).               (* seq.add_fts([...]), seq.py:332-341: self.fts = self.fts + FeatureList(fts); self.fts.sort() *)
 
 (* (in domain?, value returned / exception, list afterwards); an exception leaves the list as it was *)
 Definition fedit_run (l : list feature) (e : fedit) : bool * val * list feature :=
@@ -909,6 +910,11 @@ Definition fedit_run (l : list feature) (e : fedit) : bool * val * list feature 
       | _, _ => (true, VE E_Index, l)
       end
   | EClear => (true, VNone, [])
+  | EAddFts fs =>
+      match build_fts fs with
+      | Err x => (false, VE x, l)
+      | Ok r => (true, VNone, fts_sort [0] false (l ++ r))
+      end
   end.
 
 Inductive fstep :=
